@@ -402,4 +402,73 @@ theorem getVersion_v1 (a r : Bytes) (hp : cPipe ∉ a) (h4 : a.length % 4 = 0) :
     | nil => rfl
     | cons d ds' => simp [hc]
 
+/-! ### the signature is the tail of the value -/
+
+theorem partition1_tail_suffix (sep : Nat) (s : Bytes) : ∃ k, (partition1 sep s).2.2 = s.drop k := by
+  induction s with
+  | nil => exact ⟨0, rfl⟩
+  | cons c cs ih =>
+    unfold partition1
+    split
+    · exact ⟨1, rfl⟩
+    · obtain ⟨k, hk⟩ := ih
+      exact ⟨k + 1, by simpa using hk⟩
+
+theorem consumeField_suffix (s f r : Bytes) (h : consumeField s = some (f, r)) : ∃ k, r = s.drop k := by
+  unfold consumeField at h
+  obtain ⟨k, hk⟩ := partition1_tail_suffix cColon s
+  revert h
+  generalize partition1 cColon s = t at hk
+  obtain ⟨len, fnd, rest⟩ := t
+  simp only at hk
+  intro h
+  simp only at h
+  split at h
+  · simp at h
+  · rename_i n _
+    split at h
+    · simp at h
+    · simp only [Option.some.injEq, Prod.mk.injEq] at h
+      refine ⟨k + normIdx rest.length (n + 1), ?_⟩
+      rw [← h.2, pyDrop, hk, List.drop_drop]
+
+theorem decodeFieldsV2_sig_suffix (value : Bytes) (f : FieldsV2) (h : decodeFieldsV2 value = some f) :
+    ∃ k, f.sig = value.drop k := by
+  unfold decodeFieldsV2 at h
+  split at h
+  · simp at h
+  · rename_i kv r1 h1
+    split at h
+    · simp at h
+    · rename_i ts r2 h2
+      split at h
+      · simp at h
+      · rename_i nm r3 h3
+        split at h
+        · simp at h
+        · rename_i vf sig h4
+          split at h
+          · simp at h
+          · simp only [Option.some.injEq] at h
+            subst h
+            obtain ⟨k1, e1⟩ := consumeField_suffix _ _ _ h1
+            obtain ⟨k2, e2⟩ := consumeField_suffix _ _ _ h2
+            obtain ⟨k3, e3⟩ := consumeField_suffix _ _ _ h3
+            obtain ⟨k4, e4⟩ := consumeField_suffix _ _ _ h4
+            refine ⟨2 + k1 + k2 + k3 + k4, ?_⟩
+            subst e1; subst e2; subst e3; subst e4
+            simp only [List.drop_drop]
+
+/-- when the signature is not empty, the value is the signed part followed by the signature -/
+theorem signedPart_append_sig (value sig : Bytes) (k : Nat) (hk : sig = value.drop k) (hne : sig ≠ []) :
+    signedPart value sig ++ sig = value := by
+  unfold signedPart
+  have hlen : sig.length = value.length - k := by rw [hk]; simp
+  have hpos : 0 < sig.length := List.length_pos_iff.mpr hne
+  have : sig.isEmpty = false := by cases sig <;> simp_all
+  simp only [this]
+  have e : value.length - sig.length = k := by omega
+  simp only [Bool.false_eq_true, if_false]
+  rw [e, hk, List.take_append_drop]
+
 end TornadoModel.C23
